@@ -195,6 +195,10 @@ def run(prog, rep, tier, repo):
                 want = frozenset([('m', name, ('sym', 'SELF'))])
             if has_top(got):
                 rep.undecided('name-identity', key, 'cannot evaluate: %s' % sorted(top_reasons(got)))
+            elif name == 'powi' and not power_ok and not eff and want <= got and (got - want) <= extra:
+                # x*x / x*x*x special cases next to powi: correct iff they are selected by the exponent being 2 / 3, which the kernel rule
+                # establishes only for the unrolled idiom it reads
+                rep.undecided('name-identity', key, 'powi with product special cases; their selection by the exponent is not derived for this loop idiom', site_of(pdb.bodies[k]), proof=False)
             elif got == want and not eff:
                 rep.ok('name-identity', key, '%s::%s => %s' % (tname, name, show_expr(got)))
             else:
